@@ -12,7 +12,7 @@ from nix_manipulator.expressions.comment import Comment
 from nix_manipulator.expressions.ellipses import Ellipses
 from nix_manipulator.expressions.expression import NixExpression, TypedExpression
 from nix_manipulator.expressions.identifier import Identifier
-from nix_manipulator.expressions.layout import comma, empty_line, linebreak
+from nix_manipulator.expressions.layout import comma, empty_line, linebreak, point_column, point_row
 from nix_manipulator.expressions.set import AttributeSet
 from nix_manipulator.expressions.trivia import (
     apply_trailing_trivia,
@@ -85,7 +85,7 @@ def _parse_formal_default(
             gap = gap_between(node, prev_default, default_value_node)
             comment = Comment.from_cst(default_value_node)
             inline_comment = (
-                default_value_node.start_point.row == question_node.start_point.row
+                point_row(default_value_node.start_point) == point_row(question_node.start_point)
             )
             if inline_comment:
                 comment.inline = True
@@ -109,7 +109,7 @@ def _parse_formal_default(
     gap = gap_between(node, question_node, default_value_node)
     identifier.default_value_on_newline = "\n" in gap
     if identifier.default_value_on_newline:
-        identifier.default_value_indent = default_value_node.start_point.column
+        identifier.default_value_indent = point_column(default_value_node.start_point)
     if default_inline_comments:
         identifier.after_question.extend(default_inline_comments)
 
@@ -218,7 +218,7 @@ def _parse_argument_set(
                 pending_comment_indent = None
             elif child.type == "comment":
                 if pending_comma_node is not None and (
-                    child.start_point.row == pending_comma_node.start_point.row
+                    point_row(child.start_point) == point_row(pending_comma_node.start_point)
                 ):
                     if pending_comma_empty_line:
                         before.append(empty_line)
@@ -239,7 +239,7 @@ def _parse_argument_set(
                 comment = Comment.from_cst(child)
                 inline_to_prev = (
                     previous_child is not None
-                    and child.start_point.row == previous_child.end_point.row
+                    and point_row(child.start_point) == point_row(previous_child.end_point)
                     and argument_set
                 )
                 if inline_to_prev:
@@ -248,7 +248,7 @@ def _parse_argument_set(
                 else:
                     before.append(comment)
                     if pending_comment_indent is None:
-                        pending_comment_indent = child.start_point.column
+                        pending_comment_indent = point_column(child.start_point)
             elif child.type == "ERROR" and child.text == b",":
                 # Trailing commas are RFC compliant but add a 'ERROR' element..."
                 pass
@@ -393,7 +393,7 @@ def _collect_colon_trivia(
             continue
         if not (colon_node.end_byte <= child.start_byte < body_node.start_byte):
             continue
-        if child.start_point.row == colon_node.end_point.row:
+        if point_row(child.start_point) == point_row(colon_node.end_point):
             after_colon_comment = Comment.from_cst(child)
             inline_comment_node = child
         else:
